@@ -71,7 +71,7 @@ type TimedOpts struct {
 	SlowApp map[int]bool
 	SlowLag time.Duration
 	// HealBound: the horizon is set when the last fault has happened:
-	// now + Heights*TimePerBlock*2^(highest view then + F + 4).
+	// now + Heights*TimePerBlock*2^(highest view then + F + 5).
 	HealBound bool
 }
 
@@ -360,7 +360,7 @@ func (t *Timed) maybeSetHorizon() {
 			nval = len(n.D.Validators)
 		}
 	}
-	exp := vmax + (nval-1)/3 + 4
+	exp := vmax + (nval-1)/3 + 5 // F silent primaries, one view lost to the healed fault, one to the wait of a recovering primary (D15), and the doubled timeout of the node that times out first in a silent view (it asks for recovery, not for a view change)
 	if exp > 40 {
 		exp = 40
 	}
